@@ -12,6 +12,8 @@ LEVEL = 'proof'
 LEAN_TARGETS = ['MesonModel.Props.C19']
 AREAS = ['ver']
 PINS = [
+    'mesonbuild.interpreter.primitives.string:StringHolder.version_compare_method',
+    'mesonbuild.interpreter.primitives.string:MesonVersionStringHolder.version_compare_method',
     'mesonbuild.utils.universal:Version',
     'mesonbuild.utils.universal:_version_extract_cmpop',
     'mesonbuild.utils.universal:version_compare',
@@ -296,6 +298,12 @@ def run(ctx: Ctx) -> None:
         m = rng.choice(small)
         add('cwm', (c, m), f'cwm {enc(c)}|{enc(m)}', str(int(U.version_compare_condition_with_min(c, m))))
 
+    # ---- interpreter level: 'x'.version_compare(...) and meson.version().version_compare(...)
+    try:
+        interp_stream(ctx, U, add, small)
+    except Exception as e:  # harness-side problem with the in-process interpreter: note it, do not crash
+        ctx.notes.append(f'interpreter stream unavailable: {type(e).__name__}: {e}')
+
     # ---- correspondence: model driver on the same inputs
     ctx.count(len(cases))
     if getattr(ctx, 'model_available', True):
@@ -305,7 +313,7 @@ def run(ctx: Ctx) -> None:
             ctx.tag('kind:' + kind)
             common_ans.setdefault(kind, {}).setdefault(model_ans, 0)
             common_ans[kind][model_ans] += 1
-            if impl_ans != model_ans:
+            if impl_ans is not None and impl_ans != model_ans:
                 ctx.disagreement({'kind': kind, 'input': inp, 'impl': impl_ans, 'model': model_ans})
         top = {k: max(v, key=v.get) for k, v in common_ans.items()}
         for (kind, inp, _line, _ia), model_ans in zip(cases, answers):
@@ -314,6 +322,66 @@ def run(ctx: Ctx) -> None:
     for c in cases[::max(1, len(cases) // 8)][:8]:
         ctx.sample({'kind': c[0], 'input': c[1], 'impl': c[3]})
     ctx.assumptions += TRUSTED
+
+
+def _lit(s: str) -> T.Optional[str]:
+    """meson single-quoted literal for s, or None when s needs escapes we do not want to involve here"""
+    if any(c in s for c in "'\\\n\r") or any(ord(c) < 32 for c in s):
+        return None
+    return "'" + s + "'"
+
+
+def interp_stream(ctx: Ctx, U, add, small) -> None:
+    """The string method `version_compare` of the real interpreter (primitives/string.py) must be the
+    conjunction of its constraints, and meson.version().version_compare() must narrow the project's version
+    range to exactly version_check_to_range(constraints)."""
+    from . import c01_impl
+    rng = ctx.rng
+    impl_i = c01_impl.Impl()
+    try:
+        from mesonbuild import coredata
+        for _ in range(ctx.scale(1500, 15000)):
+            a = rng.choice(small)
+            conds = [rand_check(rng, small) for _ in range(rng.randint(1, 3))]
+            lits = [_lit(a)] + [_lit(c) for c in conds]
+            if None in lits:
+                continue
+            code = f"x = {lits[0]}.version_compare({', '.join(lits[1:])})\n"
+            ans, vs = impl_i.run(code)
+            ctx.count()
+            want = all(U.version_compare(a, c) for c in conds)
+            if vs is None or vs.get('x') is not want:
+                ctx.violation(f'interp:{a!r}:{conds!r}', f"'{a}'.version_compare{tuple(conds)} in the interpreter gave {ans.split('|')[0]}, "
+                              f'each constraint says {want}', {'a': a, 'conds': conds})
+            add('many', (a, conds), f'many {enc(a)}|{enc_list(conds)}', None if vs is None else
+                f"{int(bool(vs.get('x')))};{enc_list([c for c in conds if not U.version_compare(a, c)])};"
+                f"{enc_list([c for c in conds if U.version_compare(a, c)])}")
+        # meson.version().version_compare narrows tmp_meson_version to the range of its constraints
+        for _ in range(ctx.scale(300, 3000)):
+            conds = [c for c in (rand_check(rng, ['0.50', '1.0', '1.2.0', '1.3', '2.0', coredata.version]) for _ in range(rng.randint(1, 3)))
+                     if not c.strip().startswith('!')]
+            lits = [_lit(c) for c in conds]
+            if not conds or None in lits:
+                continue
+            code = f"x = meson.version().version_compare({', '.join(lits)})\n"
+            impl_i.reset()
+            try:
+                impl_i.interp.evaluate_codeblock(impl_i.parse(code))
+            except Exception as e:
+                ctx.notes.append(f'meson.version() stream: {type(e).__name__}')
+                break
+            ctx.count()
+            got = impl_i.interp.tmp_meson_version
+            want_r = U.version_check_to_range(list(conds))
+            if got is None or show_range(got) != show_range(want_r):
+                ctx.violation(f'interp-range:{conds!r}', 'meson.version().version_compare() recorded a range other than '
+                              'version_check_to_range(constraints)', {'conds': conds})
+            want_b = all(U.version_compare(coredata.version, c) for c in conds)
+            xv = impl_i.unhold(impl_i.interp.variables['x'])
+            if xv is not want_b:
+                ctx.violation(f'interp-mv:{conds!r}', 'meson.version().version_compare() result is not the conjunction', {'conds': conds})
+    finally:
+        impl_i.close()
 
 
 def neighbours(s: str) -> T.Iterable[str]:
